@@ -298,6 +298,10 @@ func (db *MultiBucketBackend) DeleteBucket(name string) (rerr error) {
 		return gofakes3.BucketNotFound(name)
 	}
 
+	// Directories below which no object is stored (a delete could not remove
+	// them) are not contents of the bucket:
+	pruneEmptyDirs(db.bucketFs, name, nil)
+
 	entries, err := afero.ReadDir(db.bucketFs, name)
 	if err != nil {
 		return err
